@@ -287,6 +287,16 @@ def gen_base(prop, seed, tier):
     sets = [_w(r, [(r.randint(1, 12), 2), (r.randint(13, 60), 4), (r.randint(61, 120), 1)]) for _ in range(nruns)]
     frame = r.choice([None, None, ['ellipsis'], ['slice', 1, None, None], ['slice', 0, m - 1, None], ['list', [0, m - 1]],
                       ['list', [m - 1, 0]], ['range', 0, m, 2], ['ndarray', [1, 0]], ['slice', 0, None, 2]])
+    fr2 = rng.stream(seed, 'frame2')
+    if m >= 3 and fr2.random() < 0.2:
+        # unsorted index frames of >= 3 columns (3-cycles, repeats): code that sorts the indices for reading and restores the order afterwards
+        # gets 2-element and monotone frames right whatever it does
+        perm = list(range(m))
+        while perm == sorted(perm) or perm == sorted(perm, reverse=True):
+            fr2.shuffle(perm)
+        opts = [perm, perm[:3] if perm[:3] != sorted(perm[:3]) and perm[:3] != sorted(perm[:3], reverse=True) else [2, 0, 1], [2, 0, 1], [1, 2, 0],
+                [m - 1, 0, 1, 0], [0, 2, 2, 1]]
+        frame = [fr2.choice(['list', 'ndarray']), fr2.choice(opts)]
     chain = r.choice([[], [], ['rev_affine'], ['rev_affine', 'append_prod'], ['append_prod', 'rev_affine'], ['cast'], ['square'],
                       ['cast', 'append_prod', 'rev_affine'], ['rev_affine', 'square']])
     words = r.choice([None, None, [0, 2], 1, ['slice', 1, 3], [3, 0], [3, 2, 1, 0], [1, 0, 3, 2], [0, 0, 2, 3], [2], ['ndarray', [2, 0, 3, 1]],
